@@ -257,7 +257,7 @@ pub(crate) mod __verif {
         e3b_body(LoopStep::EnterOnly);
     }
 
-    // @obligation name=e3b_bt_run_loop_undo_greedy props=C01,C02,C05 fn=classicalbacktrack::MatchAttempter::run_loop,classicalbacktrack::MatchAttempter::try_backtrack kind=complete domain="every iters, min<=iters<max, greedy, entry/pos in a 2-byte haystack" min_checks=300 w=3 timeout=1200
+    // @obligation name=e3b_bt_run_loop_undo_greedy props=C01:t,C02,C05 fn=classicalbacktrack::MatchAttempter::run_loop,classicalbacktrack::MatchAttempter::try_backtrack kind=complete domain="every iters, min<=iters<max, greedy, entry/pos in a 2-byte haystack" min_checks=300 w=3 timeout=1200
     // Greedy loop with both arms viable: backtracking resumes at the exit ip at the same position with the loop data restored.
     #[kani::proof]
     #[kani::unwind(4)]
